@@ -74,6 +74,22 @@ pub open spec fn offered(use_nla: bool) -> u32 { if use_nla { 3u32 } else { 1u32
 pub open spec fn sel(restricted: bool, s: Seq<char>) -> Seq<char> { if restricted { Seq::<char>::empty() } else { s } }
 """, mod="client", name="connector_specs"))
 A(Fn(CLI, "connect", impl=r"impl Connector", mod="client", props=["C17", "C02", "C03"],
+     # ghost snapshots are kept in hint entries of their own (no assertion inside) so that they survive a hint-free re-run
+     hints=[(r"let x224 = x224::Client::connect\(", 1, """let ghost w0 = tcp.written();
+        let ghost req = w0 + tpkt::tpkt_frame(x224::conn_req_bytes((if self.restricted_admin_mode { 1u8 } else { 0u8 }), protocols));""", "before"),
+            # `protocols |= ProtocolHybrid as u32` on `ProtocolSSL as u32`: 1 | 2 == 3; Link::new(Stream::Raw(stream)) carries written() over
+            (r"let x224 = x224::Client::connect\(", 1, "proof { assert(1u32 | 2u32 == 3u32) by(bit_vector); assert(protocols == offered(self.use_nla)); assert(w0 == stream.written()); }", "before"),
+            (r"let x224 = x224::Client::connect\([^;]*\)\?;", 1, "let ghost w1 = x224.written();"),
+            (r"let x224 = x224::Client::connect\([^;]*\)\?;", 1, "proof { assert(is_prefix(req, w1)); }"),
+            # the mcs trace right before sec::connect = witness `pre` of the Client Info clause
+            (r"mcs\.connect\(self\.name\.clone\(\)", 1, "let ghost w2 = mcs.written(); let ghost uid = mcs.uid()->Some_0; let ghost gl = mcs.chans()[\"global\"@];"),
+            # the view of "".to_string() is the empty sequence (needed by sec::connect's length precondition and by sel(true, ..))
+            (r"mcs\.connect\(self\.name\.clone\(\)", 1, "proof { mcs::lemma_prefix_trans(req, w1, w2); reveal_strlit(\"\"); assert(\"\"@ =~= Seq::<char>::empty()); }"),
+            (r"let global = global::Client::new\(", 1, "let ghost d = sel(self.restricted_admin_mode, self.domain@); let ghost u = sel(self.restricted_admin_mode, self.username@); let ghost p = sel(self.restricted_admin_mode, self.password@);", "before"),
+            # both branches of `if self.restricted_admin_mode`: sec::connect's clause nothing-else-written, stated with sel(..)
+            (r"let global = global::Client::new\(", 1, "proof { assert(exists|ext: Seq<u8>| #[trigger] (w2 + mcs::mcs_frame(uid, gl, sec::client_info_pdu(sec::info_packet(d, u, p, self.auto_logon, ext)))) =~= mcs.written()); }", "before"),
+            (r"let global = global::Client::new\(", 1, "let ghost ext = choose|ext: Seq<u8>| #[trigger] (w2 + mcs::mcs_frame(uid, gl, sec::client_info_pdu(sec::info_packet(d, u, p, self.auto_logon, ext)))) =~= mcs.written();", "before"),
+            (r"let global = global::Client::new\(", 1, "proof { mcs::lemma_prefix_trans(req, w2, mcs.written()); assert(ext.len() >= 0 && w2.len() >= 0); }", "before")],
      requires=["old(self).domain@.len() <= 512 && old(self).username@.len() <= 512 && old(self).password@.len() <= 512", "stream.rest().len() >= 0"],
      ensures=[("C02", "tls-before-client-info", "r is Ok ==> r->Ok_0.tls()"),
               ("C03", "identifiers-threaded", "r is Ok ==> r->Ok_0.connected() && r->Ok_0.global_uid() == r->Ok_0.mcs_uid()->Some_0 && r->Ok_0.global_channel() == r->Ok_0.global_chan()"),
